@@ -275,8 +275,15 @@ Record consts_ok (m : mgr) : Prop := {
   c_splus_o : owned m (m_splus m)
 }.
 
-(* derivative-cache invariant: added by the derivative layer (C03); unconstrained here *)
-Definition cache_ok (m : mgr) : Prop := True.
+(* derivative-cache invariant (C03): an entry ((i, cid), d) of the cache records, for the owned term
+   e with id i and a VALID class id cid of e's derivative classes, an owned term d whose language
+   is the left quotient of L e by EVERY good character of class cid (not only the representative
+   the derivative was computed with). *)
+Definition cache_entry_ok (m : mgr) (i : N) (cid : classid) (d : re) : Prop :=
+  exists e, owned m e /\ rid e = i /\ pvalid (rcls e) cid = true /\ owned m d /\
+    forall c, good c -> in_class (rcls e) c cid -> lang_eq (L d) (fun w => L e (c :: w)).
+Definition cache_ok (m : mgr) : Prop :=
+  forall i cid d, In ((i, cid), d) (cache m) -> cache_entry_ok m i cid d.
 
 Record wf (m : mgr) : Prop := {
   wf_counter : counter m = N.of_nat (length (id2re m));
@@ -297,9 +304,20 @@ Record wf (m : mgr) : Prop := {
    real invariant (C03) only these lemmas (and their uses in grow_wf / new_mgr_wf / wf_set_cache)
    need new proofs. *)
 Lemma cache_ok_initial : cache_ok new_mgr.
-Proof. exact I. Qed.
+Proof.
+  assert (E : cache new_mgr = []) by (vm_compute; reflexivity).
+  intros i cid d H. rewrite E in H. destruct H.
+Qed.
 Lemma cache_ok_same_cache m m' : cache m' = cache m -> ext m m' -> cache_ok m -> cache_ok m'.
-Proof. intros _ _ _. exact I. Qed.
+Proof.
+  intros E [[l Hl] _] H i cid d Hin. rewrite E in Hin.
+  assert (Hown : forall x, owned m x -> owned m' x).
+  { intros x Hx. unfold owned, at_id in *. rewrite Hl.
+    rewrite nth_error_app1; [exact Hx|]. apply nth_error_Some. congruence. }
+  destruct (H i cid d Hin) as (e & Oe & Ei & Hv & Od & HL).
+  exists e. split; [apply Hown; exact Oe|]. split; [exact Ei|]. split; [exact Hv|].
+  split; [apply Hown; exact Od | exact HL].
+Qed.
 
 (* ---- key_eqb reflects equality ---- *)
 Lemma nlist_eqb_eq l1 l2 : nlist_eqb l1 l2 = true <-> l1 = l2.
